@@ -114,3 +114,7 @@ def py_gen(text, file=""):
 
 def gen_req(text, file=""):
     return req("gen", file, text)
+
+
+def py_parse_nocoord(text):
+    return py_parse(text, "", coords=False)
